@@ -208,8 +208,12 @@ func (m *Model) ruleHLCSeed(r *Results, rule string) {
 		r.undecided(rule, "SEED", "-", "open function / clock unresolved")
 		return
 	}
-	var seed, open ssa.CallInstruction
+	var seed, anchor, open ssa.CallInstruction
+	var seedFr *frame
 	var regs []ssa.CallInstruction
+	isSeed := func(f *ssa.Function) bool {
+		return f != a.ClockNow && f.Signature.Recv() != nil && a.ClockType != nil && isNamed(f.Signature.Recv().Type(), m.SSA.Pkg.Path(), a.ClockType.Obj().Name())
+	}
 	m.eachCall(fn, func(c ssa.CallInstruction) {
 		f := c.Common().StaticCallee()
 		if f == nil {
@@ -218,13 +222,54 @@ func (m *Model) ruleHLCSeed(r *Results, rule string) {
 		if f.Pkg != nil && f.Pkg.Pkg.Path() == "database/sql" && f.Name() == "Open" {
 			open = c
 		}
-		if f != a.ClockNow && f.Signature.Recv() != nil && a.ClockType != nil && isNamed(f.Signature.Recv().Type(), m.SSA.Pkg.Path(), a.ClockType.Obj().Name()) {
-			seed = c
+		if isSeed(f) {
+			seed, anchor, seedFr = c, c, topFrame(fn)
 		}
 		if m.inPkg(f) && a.CloneFn != nil && m.reachableLocal(f)[a.CloneFn] {
 			regs = append(regs, c)
 		}
 	})
+	if seed == nil {
+		// the seeding may sit in a helper of the open function that performs it on every path
+		var find func(g *ssa.Function, fr *frame, depth int) (ssa.CallInstruction, *frame)
+		find = func(g *ssa.Function, fr *frame, depth int) (ssa.CallInstruction, *frame) {
+			var out ssa.CallInstruction
+			var outFr *frame
+			m.eachCall(g, func(c ssa.CallInstruction) {
+				if _, isCall := c.(*ssa.Call); !isCall || out != nil {
+					return
+				}
+				f := c.Common().StaticCallee()
+				if f == nil {
+					return
+				}
+				var s ssa.CallInstruction
+				var sfr *frame
+				if isSeed(f) {
+					s, sfr = c, fr
+				} else if m.inPkg(f) && len(f.Blocks) > 0 && depth < 2 && f != fn {
+					s, sfr = find(f, fr.inline(c, f), depth+1)
+				}
+				if s == nil {
+					return
+				}
+				if ok, _ := mustPassThrough(g, []*ssa.BasicBlock{c.Block()}, nil); ok {
+					out, outFr = s, sfr
+				}
+			})
+			return out, outFr
+		}
+		m.eachCall(fn, func(c ssa.CallInstruction) {
+			if _, isCall := c.(*ssa.Call); !isCall || seed != nil {
+				return
+			}
+			if f := c.Common().StaticCallee(); f != nil && m.inPkg(f) && len(f.Blocks) > 0 && f != fn {
+				if s, sfr := find(f, topFrame(fn).inline(c, f), 1); s != nil {
+					seed, anchor, seedFr = s, c, sfr
+				}
+			}
+		})
+	}
 	if seed == nil {
 		r.bad(rule, "SEED / "+m.declName(fn), m.pos(fn.Pos()), "the open function never raises the clock to the bucket's persisted high-water mark: after a reopen with a clock that stands still or went back, CAS values can repeat")
 		return
@@ -234,7 +279,7 @@ func (m *Model) ruleHLCSeed(r *Results, rule string) {
 	okDom := true
 	for _, rg := range regs {
 		if open != nil && (open.Block() == rg.Block() || open.Block().Dominates(rg.Block())) {
-			if !(seed.Block() == rg.Block() && indexIn(seed.Block(), seed) < indexIn(rg.Block(), rg) || seed.Block() != rg.Block() && seed.Block().Dominates(rg.Block())) {
+			if !(anchor.Block() == rg.Block() && indexIn(anchor.Block(), anchor) < indexIn(rg.Block(), rg) || anchor.Block() != rg.Block() && anchor.Block().Dominates(rg.Block())) {
 				okDom = false
 			}
 		}
@@ -286,7 +331,7 @@ func (m *Model) ruleHLCSeed(r *Results, rule string) {
 	args := seed.Common().Args
 	var src ssa.Value
 	if len(args) >= 2 {
-		src, _ = m.resolve(args[1], topFrame(fn))
+		src, _ = m.resolve(args[1], seedFr)
 	}
 	call, _ := src.(*ssa.Call)
 	var f *ssa.Function
@@ -1202,12 +1247,22 @@ func (m *Model) ruleCLOSED(r *Results) {
 // fieldsReadVia returns the fields of the receiver that method fn reads, directly or
 // through methods it calls on the same receiver.
 func (m *Model) fieldsReadVia(fn *ssa.Function, seen map[*ssa.Function]bool) map[*types.Var]bool {
+	if fn == nil || len(fn.Params) == 0 {
+		return map[*types.Var]bool{}
+	}
+	return m.fieldsReadThrough(fn, fn.Params[0], seen)
+}
+
+// fieldsReadThrough: the fields of the object parameter `recv` points to that fn reads, directly
+// or through package functions it hands the object to (static calls, and dynamic calls resolved
+// by the call graph, e.g. functions kept in a table).
+func (m *Model) fieldsReadThrough(fn *ssa.Function, recv *ssa.Parameter, seen map[*ssa.Function]bool) map[*types.Var]bool {
 	out := map[*types.Var]bool{}
-	if fn == nil || seen[fn] || len(fn.Params) == 0 {
+	if fn == nil || seen[fn] {
 		return out
 	}
 	seen[fn] = true
-	recv := fn.Params[0]
+	node := m.CG.Nodes[fn]
 	for _, b := range fn.Blocks {
 		for _, in := range b.Instrs {
 			switch x := in.(type) {
@@ -1220,10 +1275,26 @@ func (m *Model) fieldsReadVia(fn *ssa.Function, seen map[*ssa.Function]bool) map
 					}
 				}
 			case ssa.CallInstruction:
-				callee := x.Common().StaticCallee()
-				if callee != nil && m.inPkg(callee) && len(x.Common().Args) > 0 && stripConv(x.Common().Args[0]) == ssa.Value(recv) && callee.Signature.Recv() != nil {
-					for f := range m.fieldsReadVia(callee, seen) {
-						out[f] = true
+				var targets []*ssa.Function
+				if callee := x.Common().StaticCallee(); callee != nil {
+					targets = append(targets, callee)
+				} else if node != nil && !x.Common().IsInvoke() {
+					for _, e := range node.Out {
+						if e.Site == x {
+							targets = append(targets, e.Callee.Func)
+						}
+					}
+				}
+				for _, callee := range targets {
+					if !m.inPkg(callee) {
+						continue
+					}
+					for ai, a := range x.Common().Args {
+						if stripConv(a) == ssa.Value(recv) && ai < len(callee.Params) {
+							for f := range m.fieldsReadThrough(callee, callee.Params[ai], seen) {
+								out[f] = true
+							}
+						}
 					}
 				}
 			}
